@@ -96,7 +96,10 @@ Problems(r) ==
   [missing   |-> (MustList(lvl) \ (IF r.kind = "help" THEN items ELSE all))
                  \* a usage line supplied by the program (usage / with_usage) is what help shows
                  \cup (IF r.kind = "help" /\ "usage_token" \in DOMAIN lvl /\ lvl.usage_token \notin all THEN {lvl.usage_token} ELSE {}),
-   forbidden |-> MustNotMention(lvl) \cap all,
+   \* (a document covers every level at once: a hidden item's name may be the name of a visible item of another level)
+   forbidden |-> IF r.kind = "help" THEN MustNotMention(lvl) \cap all
+                 ELSE (MustNotMention(lvl) \cap all)
+                      \ UNION {MustList(LevelAt(DefById(r.def), q)) : q \in VisiblePaths(DefById(r.def))},
    foreign   |-> IF r.kind = "help" THEN {t \in items : NameLike(t)} \ MayList(lvl) ELSE {},
    \* the usage line is exactly the one Usage.tla computes from the definition (a line supplied by the program aside)
    usage     |-> IF r.kind = "help" /\ "usage" \in DOMAIN r /\ "usage_token" \notin DOMAIN lvl /\ r.usage # UsageLineS(lvl, r.path, "")
